@@ -14,6 +14,7 @@ import (
 	"strings"
 
 	"github.com/mutagen-io/mutagen/pkg/synchronization/core"
+	"github.com/mutagen-io/mutagen/pkg/synchronization/core/fastpath"
 
 	"verif/harness/corex"
 	"verif/harness/hx"
@@ -273,6 +274,44 @@ func runCase(line string) (impl, oracle string) {
 		if strings.Join(want, ";") != strings.Join(items, ";") {
 			fail("problems", "got %v want %v", items, want)
 		}
+	case "glue":
+		var names []string
+		if f[1] != "-" {
+			for _, t := range strings.Split(f[1], ",") {
+				n, err := hx.DecText(t)
+				if err != nil {
+					return "bad-op", ""
+				}
+				names = append(names, n)
+			}
+		}
+		path := ""
+		for _, n := range names {
+			path = fastpath.Joinable(path) + n // diff.go:29-37, reconcile.go:117-130
+		}
+		var comps []string
+		if path != "" { // apply.go:29
+			comps = strings.Split(path, "/") // apply.go:36
+		}
+		enc := make([]string, len(comps))
+		ok := len(comps) == len(names)
+		valid := true
+		for _, n := range names {
+			valid = valid && n != "" && !strings.Contains(n, "/")
+		}
+		for i, cmp := range comps {
+			enc[i] = hx.EncText(cmp)
+			ok = ok && i < len(names) && names[i] == cmp
+		}
+		impl = hx.Hex([]byte(path)) + "|"
+		if len(enc) == 0 {
+			impl += "-"
+		} else {
+			impl += strings.Join(enc, ",")
+		}
+		if valid && !ok {
+			fail("path-glue", "names %q became components %q", names, comps)
+		}
 	case "chvalid":
 		c, err := hx.DecChange(f[2])
 		if err != nil {
@@ -413,6 +452,26 @@ func main() {
 			}
 			emit("apply " + enc(base) + " " + list)
 			c.Count("apply-random")
+		}
+
+		// Path-string glue: names (valid and invalid) joined on the way down and split by Apply.
+		pool := append([]string{"", "/", "a/b", "/x", "y/", ".", ".."}, hx.DefaultNames...)
+		for i := 0; i < c.Size(3000, 100000); i++ {
+			k := c.R.Intn(5)
+			toks := make([]string, k)
+			for j := range toks {
+				if c.R.Chance(3, 4) {
+					toks[j] = hx.EncText(hx.DefaultNames[c.R.Intn(len(hx.DefaultNames))])
+				} else {
+					toks[j] = hx.EncText(pool[c.R.Intn(len(pool))])
+				}
+			}
+			if k == 0 {
+				emit("glue -")
+			} else {
+				emit("glue " + strings.Join(toks, ","))
+			}
+			c.Count("glue")
 		}
 
 		// Malformed entries and changes for the validity predicates.
